@@ -38,8 +38,12 @@ def main(argv):
         inner = tb[-1] if tb else None
         lib_frames = [f for f in tb if os.path.realpath(f.filename).startswith(repo)]
         text = "".join(traceback.format_exception(type(e), e, e.__traceback__))[-6000:]
-        if isinstance(e, Exception) and inner is not None and lib_frames and (
-                os.path.realpath(inner.filename).startswith(repo) or "site-packages" in inner.filename):
+        verif = os.path.realpath(boot.VERIF) + os.sep
+        last_lib = max([i for i, f in enumerate(tb) if os.path.realpath(f.filename).startswith(repo)], default=-1)
+        # raised by the library, or by NumPy / SciPy (compiled frames carry relative names such as numpy/random/mtrand.pyx)
+        # underneath a library frame, with no harness frame (a scripted generator, a substituted pool) in between
+        below_lib_is_foreign = last_lib >= 0 and not any(os.path.isabs(f.filename) and os.path.realpath(f.filename).startswith(verif) for f in tb[last_lib + 1:])
+        if isinstance(e, Exception) and inner is not None and lib_frames and below_lib_is_foreign:
             # the library itself raised on an input inside the property's quantifier: a violation, with its traceback
             f = lib_frames[-1]
             ctx.fail("exception_in_library:%s:%s:%s" % (os.path.basename(f.filename), f.name, type(e).__name__),
